@@ -235,7 +235,16 @@ std::string mutate_invalid(const std::string &text, Rng &rng) {
     switch (rng.below(16)) {
         case 0: t += "\nNOT_A_GATE 0"; break;
         case 1: t += "\nH(0.5) 0"; break;
-        case 2: t += "\nX_ERROR(1.5) 0"; break;
+        case 2: {
+            // a probability outside [0,1], far or barely (the sum rule of disjoint channels has a 1e-7 tolerance; a single probability has none)
+            static const std::vector<std::string> BAD = {"1.5", "-0.25", "1.00000005", "1.0000001", "1.0000000000000002", "2", "-1e-9", "-0", "1e300", "1.00000011"};
+            static const std::vector<std::string> FORM = {"X_ERROR(@) 0", "DEPOLARIZE1(@) 1", "DEPOLARIZE2(@) 0 1", "M(@) 0", "MPP(@) X0*Z1", "HERALDED_ERASE(@) 2", "PAULI_CHANNEL_1(0, @, 0) 0",
+                                                          "PAULI_CHANNEL_1(0.5, 0.5, @) 0", "E(@) X1", "MXX(@) 0 1", "MPAD(@) 1", "HERALDED_PAULI_CHANNEL_1(0, @, 0, 0) 0"};
+            std::string f = rng.pick(FORM), v = rng.pick(BAD);
+            f.replace(f.find('@'), 1, v);
+            t += "\n" + f;
+            break;
+        }
         case 3: t += "\nCX 0 1 2"; break;
         case 4: t += rng.chance(0.5) ? "\nMPP * X1" : "\nMPP X1 *"; break;
         case 5: t += "\nREPEAT 0 {\n    H 0\n}"; break;
